@@ -122,10 +122,11 @@ def compiled_family(prop, tier, seed):
             hist["compiled-skipped"] += 1
             continue
         if kind == "mtl":
-            m = f"fn m{i}() -> String {{ obs_tl(timeline!({src[i]})) }}"
-            r = f"fn r{i}() -> String {{ obs_tl({ref}) }}"
+            loc = "#[allow(unused_variables)] let (x, y, alpha, size) = (11.5f32, -3.25f32, 0.625f32, 40.0f32);"   # for `{ x }` shorthand
+            m = f"fn m{i}() -> String {{ {loc} obs_tl(timeline!({src[i]})) }}"
+            r = f"fn r{i}() -> String {{ {loc} obs_tl({ref}) }}"
         else:
-            pre = "let base_style = Style { x: 3.0, y: 4.0, alpha: 0.75, size: 12.0 };"
+            pre = "let base_style = Style { x: 3.0, y: 4.0, alpha: 0.75, size: 12.0 }; #[allow(unused_variables)] let (x, y, alpha, size) = (11.5f32, -3.25f32, 0.625f32, 40.0f32);"
             m = f"fn m{i}() -> String {{ {pre} obs_anim(animator!({src[i]})) }}"
             r = f"fn r{i}() -> String {{ {pre} obs_anim({ref}) }}"
         cases[i] = (m, r)
